@@ -327,3 +327,14 @@ Proof.
     destruct (look_in _ _ _ NP H) as [k Hk]. destruct (B k _ Hk) as [E|E]; [injection E as ->; reflexivity|discriminate].
   - intros a b t E NA H. destruct (look_in _ _ _ NA H) as [k Hk]. destruct (B k _ Hk) as [Q|Q]; discriminate Q.
 Qed.
+
+(** the one check the code has — downloads of a link as final component —
+    is bypassed by writing the request with a trailing "/." : the kernel
+    follows the link for Lstat, the check sees a directory *)
+Lemma refuted_download_trailing_dot_proof :
+  let fs := build_fs w_tree in
+  o_code (exec w_allowed fs (RDownload "/allowed/link")) = 1%N /\
+  escapes w_allowed fs (RDownload "/allowed/link/.") = true /\
+  escapes w_allowed fs (RDownload "/allowed/link/") = true /\
+  o_payload (exec w_allowed fs (RDownload "/allowed/link/.")) = "<directory>".
+Proof. vm_compute. repeat split; reflexivity. Qed.
